@@ -11,9 +11,9 @@ import (
 
 func init() {
 	register(&propDef{
-		ID:    "C19",
-		Title: "Statistics and the query log tell the truth",
-		Run:   runC19,
+		ID:          "C19",
+		Title:       "Statistics and the query log tell the truth",
+		Run:         runC19,
 		Explanation: "Structural necessary conditions, decided on SSA: (window-lock, counters) the sliding-window samples and the counter map are only touched under their mutexes; (compaction) what the window cleaner stores back is a reslice of the old samples or a fresh slice filled by copy from the live tail, never a zero-filled slice, and the compaction is not inside the scan it replaces; (writelog) the response is written, then the same message is logged exactly once on the success edge, then counters are bumped; (outcomes) each outcome counter is incremented under the condition on the response it names; (once) the query counter is bumped once at entry and the type counter once before any response is written. Expiry timing and the arithmetic of min/max/avg are not decided.",
 	})
 }
@@ -372,21 +372,21 @@ func c19Outcomes(c *Ctx) {
 	isNs := extractOf("IsAuthoritative", 0)
 
 	table := map[string][]factPred{
-		"DNS_queries_nxdomain":         {{"rcode == NameError", cmpConst(isRcode, 3, true)}},
-		"DNS_queries_refused":          {{"rcode == Refused", cmpConst(isRcode, 5, true)}},
-		"DNS_queries_badvers":          {{"rcode == BadVers", cmpConst(isRcode, 16, true)}},
-		"DNS_queries_nodata":           {{"rcode == Success", cmpConst(isRcode, 0, true)}, {"len(Answer) == 0", cmpConst(lenAnswer, 0, true)}},
-		"DNS_queries_notauthoritative": {{"!Authoritative", boolIs(func(v ssa.Value) bool { return isFieldLoad(v, fAA) }, false)}},
-		"DNS_cache.hit":                {{"lru.Get ok", boolIs(extractOf("Get", 1), true)}, {"not expired", expired(false)}},
-		"DNS_cache.expired":            {{"lru.Get ok", boolIs(extractOf("Get", 1), true)}, {"expired", expired(true)}},
-		"DNS_cache.missed":             {{"lru.Get !ok", boolIs(extractOf("Get", 1), false)}},
-		"DNS_location.ecs":             {{"loc.Mask > 0", maskPos(true)}},
-		"DNS_location.empty":           {{"loc.Mask == 0", maskPos(false)}, {"LocID[0] == 0", cmpConst(locByte(0), 0, true)}, {"LocID[1] == 0", cmpConst(locByte(1), 0, true)}},
-		"DNS_location.default":         {{"loc.Mask == 0", maskPos(false)}, {"LocID[0] == 0", cmpConst(locByte(0), 0, true)}, {"LocID[1] == 1", cmpConst(locByte(1), 1, true)}},
-		"DNS_location.fallback_default": {{"loc.Mask == 0", maskPos(false)}, {"LocID[0] == 0", cmpConst(locByte(0), 0, true)}, {"LocID[1] == 2", cmpConst(locByte(1), 2, true)}},
-		"DNS_location.resolver":        {{"loc.Mask == 0", maskPos(false)}},
-		"DNS_response.refused":         {{"!ns", boolIs(isNs, false)}, {"!auth", boolIs(isAuth, false)}},
-		"DNS_response.authoritative":   {{"auth", func(v ssa.Value, truth bool) bool { return truth && authValue(v) }}},
+		"DNS_queries_nxdomain":           {{"rcode == NameError", cmpConst(isRcode, 3, true)}},
+		"DNS_queries_refused":            {{"rcode == Refused", cmpConst(isRcode, 5, true)}},
+		"DNS_queries_badvers":            {{"rcode == BadVers", cmpConst(isRcode, 16, true)}},
+		"DNS_queries_nodata":             {{"rcode == Success", cmpConst(isRcode, 0, true)}, {"len(Answer) == 0", cmpConst(lenAnswer, 0, true)}},
+		"DNS_queries_notauthoritative":   {{"!Authoritative", boolIs(func(v ssa.Value) bool { return isFieldLoad(v, fAA) }, false)}},
+		"DNS_cache.hit":                  {{"lru.Get ok", boolIs(extractOf("Get", 1), true)}, {"not expired", expired(false)}},
+		"DNS_cache.expired":              {{"lru.Get ok", boolIs(extractOf("Get", 1), true)}, {"expired", expired(true)}},
+		"DNS_cache.missed":               {{"lru.Get !ok", boolIs(extractOf("Get", 1), false)}},
+		"DNS_location.ecs":               {{"loc.Mask > 0", maskPos(true)}},
+		"DNS_location.empty":             {{"loc.Mask == 0", maskPos(false)}, {"LocID[0] == 0", cmpConst(locByte(0), 0, true)}, {"LocID[1] == 0", cmpConst(locByte(1), 0, true)}},
+		"DNS_location.default":           {{"loc.Mask == 0", maskPos(false)}, {"LocID[0] == 0", cmpConst(locByte(0), 0, true)}, {"LocID[1] == 1", cmpConst(locByte(1), 1, true)}},
+		"DNS_location.fallback_default":  {{"loc.Mask == 0", maskPos(false)}, {"LocID[0] == 0", cmpConst(locByte(0), 0, true)}, {"LocID[1] == 2", cmpConst(locByte(1), 2, true)}},
+		"DNS_location.resolver":          {{"loc.Mask == 0", maskPos(false)}},
+		"DNS_response.refused":           {{"!ns", boolIs(isNs, false)}, {"!auth", boolIs(isAuth, false)}},
+		"DNS_response.authoritative":     {{"auth", func(v ssa.Value, truth bool) bool { return truth && authValue(v) }}},
 		"DNS_response.not_authoritative": {{"!auth", func(v ssa.Value, truth bool) bool { return !truth && authValue(v) }}},
 	}
 	seen := map[string]int{}
